@@ -2,7 +2,8 @@
    Transcribed from serde_derive 1.0.228 src/internals/case.rs (apply_to_field, apply_to_variant; the
    file is identical in 1.0.219 and 1.0.229) and src/internals/attr.rs (Name: an item-level rename
    wins, otherwise the container rule is applied to the Rust identifier; skip removes the item).
-   Stated for ASCII identifiers. Also: the domain predicate, the known-finding classes and the
+   Stated on UTF-8 bytes; exact for ASCII identifiers, and for non-ASCII ones under the rules admitted by
+   uni_rule_ok below. Also: the domain predicate, the known-finding classes and the
    boolean oracle used at run time. No proofs here. *)
 From Coq Require Import String Ascii.
 From Coq Require Import List Arith Bool NArith.
@@ -107,8 +108,31 @@ Definition other_ok (m : meta) : bool :=
   | MRenameP l => sd_ok l
   | _ => true
   end.
+(* deepening round 7: item identifiers may be UTF-8 (any byte above 127 counts as an identifier byte:
+   the bytes of the non-ASCII XID characters rustc accepts); attribute names stay ASCII *)
+Definition is_hi (c : ascii) : bool := (128 <=? nb c)%N.
+Definition uident_start (c : ascii) : bool := ident_start c || is_hi c.
+Definition uident_char (c : ascii) : bool := ident_char c || is_hi c.
+Definition uident_ok (s : str) : bool :=
+  match s with [] => false | c :: _ => uident_start c end && forallb uident_char s && existsb (fun c => negb (is_us c)) s.
+Definition is_ascii_str (s : str) : bool := forallb (fun c => negb (is_hi c)) s.
+Definition head_ascii (s : str) : bool := match s with c :: _ => negb (is_hi c) | [] => true end.
+(* where case.rs uses ASCII operations only, so that the byte-level rules above are serde's on a
+   non-ASCII identifier: every field rule and the PascalCase / lowercase / UPPERCASE variant rules;
+   camelCase (both kinds) slices off the first BYTE of the PascalCase form / of the variant name and
+   panics inside the derive macro when that is not a character boundary, so it is in the domain only
+   when that first character is ASCII; the four SnakeCase-based variant rules call char::is_uppercase
+   (a Unicode table) and stay ASCII-only *)
+Definition uni_rule_ok (k : kind) (ra : option rule) (s : str) : bool :=
+  is_ascii_str s ||
+  match ra with
+  | None => true
+  | Some RCamel => head_ascii (if is_struct k then pascal true s else s)
+  | Some RPascal | Some RLower | Some RUpper => true
+  | Some _ => is_struct k
+  end.
 Definition item_ok (it : item) : bool :=
-  ident_ok (unraw (it_ident it)) && forallb other_ok (concat (it_attrs it)) && Nat.leb (count_renames (concat (it_attrs it))) 1.
+  uident_ok (unraw (it_ident it)) && forallb other_ok (concat (it_attrs it)) && Nat.leb (count_renames (concat (it_attrs it))) 1.
 Definition is_ra (m : cmeta) : bool := match m with CRenameAll _ | CRenameAllP _ => true | _ => false end.
 Definition valid_rule (v : str) : bool := match rule_of_str v with Some _ => true | None => false end.
 Definition cmeta_ok (m : cmeta) : bool :=
@@ -119,9 +143,12 @@ Definition cmeta_ok (m : cmeta) : bool :=
   | CKV n _ => ident_ok n && negb (str_eqb n (L "rename_all"))
   end.
 Definition count_rename_all (ms : list cmeta) : nat := List.length (filter is_ra ms).
-Definition in_domain (c : container) : bool :=
+Definition in_domain0 (c : container) : bool :=
   forallb item_ok (c_items c) && forallb cmeta_ok (concat (c_attrs c)) && Nat.leb (count_rename_all (concat (c_attrs c))) 1
   && (is_struct (c_kind c) || negb (Nat.eqb (List.length (c_items c)) 0)).
+(* non-ASCII identifiers only under the rules that serde computes with ASCII operations *)
+Definition in_domain (c : container) : bool :=
+  in_domain0 c && forallb (fun it => uni_rule_ok (c_kind c) (container_rule c) (unraw (it_ident it))) (c_items c).
 
 (* ------------------------------------------------------------------ known-finding classes *)
 Definition meta_text (m : meta) : str := tok_string (meta_tokens m).
